@@ -130,6 +130,9 @@ class Engine:
         self.foreign_models = {}    # (class, method name) -> fn(interp, W, obj, args, kwargs)
         self.class_models = {}      # foreign class -> fn(interp, W, args, kwargs)
         self.merge = merge
+        # pure-Python helpers of the standard library reached from the code under test (textwrap, functools.wraps,
+        # dataclasses.replace, ...) are interpreted like any other code instead of ending the run as Unsupported
+        self.interpret_any_python = True
         self.step_limit = step_limit
         self.max_frames = max_frames
         self.timeout = timeout
